@@ -1,8 +1,9 @@
 """C07 — nearest-neighbour indices: unit discipline, sibling argument checks, agreement at the radius."""
 import re
 
+from . import layout
 from .core import RuleResult
-from .facts import fn_key, fn_loc, walk, strip, peel_refs, pat_bindings, Render
+from .facts import fn_file, fn_key, fn_loc, walk, strip, peel_refs, pat_bindings, Render
 from .sym import Tracer, Term, Cmp, k, as_term, walk_terms
 from .units import Units
 
@@ -546,5 +547,7 @@ def rule_degree(ctx):
     return res.finish(10)
 
 
+rule_memorder = layout.make_rule("R-C07-memorder", "raw memory-order buffers (as_slice_memory_order, into_raw_vec, as_ptr) of stored point batches are used by position only behind an is_standard_layout() test", lambda f: f["d"]["krate"] == "linfa_nn", "linfa-nn")
+
 def rules(tier):
-    return [rule_unit, rule_sib, rule_edge, rule_degree]
+    return [rule_unit, rule_sib, rule_edge, rule_degree, rule_memorder]
